@@ -318,7 +318,8 @@ func runSQLite(args []string) {
 			}
 		}
 		// expected rejections: an explicitly referenced omitempty member that is zero
-		if strings.HasSuffix(form, "members") {
+		if explicitCols != nil {
+			// listing a column makes it explicit, also when the value comes from $T.*
 			for k := 0; k < nrows; k++ {
 				for _, c := range explicitCols {
 					if omitEmptyTag(st.t, c) && fieldByTag(rowsV.Index(k), c).IsZero() {
@@ -357,6 +358,9 @@ func runSQLite(args []string) {
 				omitted := omitEmptyTag(st.t, c) && f.IsZero()
 				if strings.HasPrefix(form, "bulk") {
 					omitted = omitEmptyTag(st.t, c) && fieldByTag(rowsV.Index(0), c).IsZero()
+				}
+				if explicitCols != nil {
+					omitted = false
 				}
 				if omitted {
 					continue
@@ -482,8 +486,6 @@ func runSQLite(args []string) {
 		if err == nil {
 			ins, perr := sqlair.Prepare("INSERT INTO t1 (*) VALUES ($"+tn+".*)", reflect.Zero(st.t).Interface())
 			if perr == nil {
-				before, _ := dumpTable(sqldb2(sqldb), "t1", st.cols)
-				_ = before
 				e := tx.Query(ctx, ins, rowsV.Index(0).Interface()).Run()
 				commit := cr.Chance(1, 2)
 				if commit {
@@ -520,5 +522,3 @@ func runSQLite(args []string) {
 		fmt.Println(string(b))
 	}
 }
-
-func sqldb2(db *sql.DB) *sql.DB { return db }
